@@ -18,8 +18,9 @@ def execute(case):
             exc = exc or e
             r = ""
         out.append(enc(r))
+    # (total_only: input that normalize_url cannot parse - only "a result comes back" is judged)
     return {"id": case["id"], "b": case["b"], "plain": case["plain"], "x": case["x"], "r": out, "names": NAMES,
-            "pre": [], "fp": True, "sw": bool(case.get("sw", False)), "exc": exc or ""}
+            "pre": [], "fp": not case.get("total_only", False), "sw": bool(case.get("sw", False)), "exc": exc or ""}
 
 
 def describe(case):
@@ -44,6 +45,10 @@ def run(ctx):
         if k not in seen:
             seen.add(k)
             uniq.append(c)
+    # strings normalize_url hands back unchanged (unparseable, host-less): fingerprint_url must still return something
+    for i, t in enumerate(["javascript:void(0)", "http://www.example.com:abc/", "http://[", "about:blank", "", "   ", "http://", "localhost//a",
+                           "http://a.com:99999/x", "http://u@/x"]):
+        uniq.append({"b": 1000 + i, "plain": True, "x": enc(t), "total_only": True})
     failing = c04.judge(ctx, "harness.checks.c06", uniq, trace_cfg=TRACE_CFG)
     ctx.traces_validated = len(uniq)
     ctx.exhaustive = True
